@@ -1706,6 +1706,10 @@ impl proto::Peer for Peer {
                     why,
                 )
             })?);
+        } else if is_connect {
+            // The :authority of a CONNECT request is the host and port to
+            // connect to; there is nothing to connect to without it.
+            malformed!("malformed headers: missing authority in CONNECT");
         }
 
         // A :scheme is required, except CONNECT.
